@@ -102,6 +102,60 @@ def is_exception_class(prog: Program, cls: str) -> bool:
     return prog.exc_subclass(cls, 'Exception') or (cls.endswith('+') and prog.exc_subclass('Exception', cls))
 
 
+def error_ctor_arguments(prog: Program):
+    """(number of constructions, [(function, line, construct, message)]) over pjrpc.server.* and pjrpc.common.*: a construction of a
+    JsonRpcError subclass whose first / second positional argument (or code= / message= keyword) is not an integer / string by
+    its form: a literal of the other kind, an exception variable, a container."""
+    from ..types import FuncScope, types_of
+    ty = types_of(prog)
+    base_q = EXC + '.JsonRpcError'
+    n_sites = 0
+    bad = []
+    for f in prog.iter_funcs():
+        if not f.module.name.startswith(('pjrpc.server', 'pjrpc.common')) or not isinstance(f.node, (ast.FunctionDef, ast.AsyncFunctionDef)):
+            continue
+        sc = FuncScope(f, ty)
+        handler_vars = {x.name for x in ast.walk(f.node) if isinstance(x, ast.ExceptHandler) and x.name}
+        for x in walk_own(f.node):
+            if not isinstance(x, ast.Call):
+                continue
+            try:
+                tg = ty.callees(x, sc)
+            except RecursionError:
+                continue
+            cls_ = [o for k, o in tg if k == 'ctor' and isinstance(o, ClassInfo) and
+                    any(getattr(c, 'qualname', None) == base_q for c in prog.mro(o))]
+            if not cls_ or len(cls_) != len(tg):
+                continue
+            n_sites += 1
+            slots = {}
+            for i, a in enumerate(x.args[:2]):
+                if not isinstance(a, ast.Starred):
+                    slots['code' if i == 0 else 'message'] = a
+            for kw in x.keywords:
+                if kw.arg in ('code', 'message'):
+                    slots[kw.arg] = kw.value
+            for slot, a in slots.items():
+                wrong = None
+                if isinstance(a, ast.Constant) and a.value is not None:
+                    if slot == 'code' and (not isinstance(a.value, int) or isinstance(a.value, bool)):
+                        wrong = f'the literal {a.value!r}'
+                    if slot == 'message' and not isinstance(a.value, str):
+                        wrong = f'the literal {a.value!r}'
+                elif isinstance(a, ast.Name) and a.id in handler_vars:
+                    wrong = f'the caught exception `{a.id}`'
+                elif isinstance(a, (ast.Dict, ast.List, ast.Tuple, ast.Set, ast.ListComp, ast.DictComp)):
+                    wrong = f'the container `{norm(a)[:40]}`'
+                elif slot == 'code' and isinstance(a, (ast.JoinedStr,)) or slot == 'code' and isinstance(a, ast.Call) and dotted(a.func) in ('str', 'repr'):
+                    wrong = f'the string `{norm(a)[:40]}`'
+                if wrong:
+                    bad.append((f, x.lineno, f'error {slot} is {wrong[:50]}',
+                                f'`{norm(x)[:80]}` passes {wrong} in the {slot} position of the error constructor (positional order is code, '
+                                f'message, data): the response then carries a non-{"integer code" if slot == "code" else "string message"} '
+                                f'and dispatch reports it among the error codes'))
+    return n_sites, bad
+
+
 def run(ck: Check, prog: Program) -> None:
     from .common import dispatcher_program
     prog = dispatcher_program(prog)
@@ -223,6 +277,14 @@ def run(ck: Check, prog: Program) -> None:
     ck.ob('ERROR-SHAPE', 'JsonRpcError.__init__: a given code / message wins over the class-level default', not pp)
     for c_, m_, l_ in pp:
         ck.finding('ERROR-SHAPE', ctor.qualname, c_, eci.module.rel, l_, m_)
+    # ... and every error the server side builds itself passes an integer as code and a string as message: positional arguments of
+    # the error constructors are (code, message, data), so a payload passed positionally becomes the code
+    n_sites, bad_sites = error_ctor_arguments(prog)
+    ck.ob('ERROR-SHAPE', f'{n_sites} error constructions in the server / common packages: code and message positions hold an integer / a string', not bad_sites,
+          sample={'constructions': n_sites})
+    ck.require('ERROR-SHAPE', 'error constructions in pjrpc.server / pjrpc.common', n_sites, 8)
+    for f_, line_, construct_, msg_ in bad_sites:
+        ck.finding('ERROR-SHAPE', f_.qualname, construct_, f_.module.rel, line_, msg_)
     ck.extra['call_sites_resolved'] = interp.calls_resolved
     ck.extra['contexts_analysed'] = interp.contexts
     ck.extra['assumed_total_callees'] = {k: len(v) for k, v in sorted(interp.assumed_total.items())}
@@ -506,6 +568,8 @@ def _batch_to_json(ck: Check, prog: Program) -> None:
 
 # ---- mutants for the sensitivity battery (see mutate.py) ---------------------------------------------
 MUTANTS = [
+    dict(name='validation-error-passed-as-error-code', file='pjrpc/server/dispatcher.py', nth=1,
+         find='raise pjrpc.exceptions.InvalidParamsError(data=e) from e', replace='raise pjrpc.exceptions.InvalidParamsError(e) from e', expect='ERROR-SHAPE'),
     dict(name='drop-IdentityError-handler', file='pjrpc/server/dispatcher.py',
          find='except (pjrpc.exceptions.DeserializationError, pjrpc.exceptions.IdentityError) as e:',
          replace='except pjrpc.exceptions.DeserializationError as e:', expect='ESC-DISPATCH', nth=1),
